@@ -8,7 +8,7 @@ from mirsym.models import is_ws, str_concat, str_sub
 from .common import *
 from mirsym.harness import process_failed, witness, discharge_known
 
-from .c01 import job_token_inductive, replayer as lemma_replayer
+from .c01 import job_token_inductive, job_arglist_inductive, replayer as lemma_replayer
 PID = 'C02'
 DOLLAR, PERCENT, LBRACE, RBRACE = 36, 37, 123, 125
 
@@ -174,7 +174,33 @@ def job_spread(ctx, jr, name_cap, val_cap, nvars):
 
 
 def replayer(v):
-    if v.get('kind') == 'c01_lemma': return lemma_replayer(v)
+    if v.get('kind') in ('c01_lemma', 'c01_arglist'): return lemma_replayer(v)
+    if v.get('kind') == 'c02_lemma':
+        # rebuild templates that bring the scan into the loop-head state of the counterexample and continue inside the template grammar
+        if v['phase'] == 'BASE': return (None, 'base-case lemma: no template to rebuild')
+        if not all('a' <= ch <= 'z' for ch in v['OUT'] + v['K']): return (None, 'loop-head state with non-plain output/key: not rebuilt')
+        sig = '$' if v['single'] else '%'
+        lead = {'B': v['OUT'], 'END': v['OUT'], 'D': v['OUT'] + sig, 'K': v['OUT'] + sig + '{' + v['K'], 'F': v['OUT'] + '\\'}[v['phase']]
+        if not v['single']: lead = lead[len(v['OUT']):]      # a spread template has nothing before the %
+        c = v['template'][v['p']:v['p'] + 1]
+        env = dict(v['env']); env.setdefault('a', 'x y'); env.setdefault(v['K'] or 'b', 'p  q')
+        cands = [(lead + c + tail, env) for tail in ('', 'z', '}', '}z', '{a}', '{a}z', 'a}', 'a}z', '${a}', 'z${a}')]
+        if v['phase'] == 'END' and not v['single']:
+            # the state "spread value OUT collected": reached by %{b} with b = OUT; the documented words depend on the blanks around them
+            cands = [('%{b}', dict(env, b=val)) for val in (v['OUT'], v['OUT'] + '  z', ' ' + v['OUT'], v['OUT'] + ' ', 'z ' + v['OUT'])]
+        last = None
+        for t, env_ in cands:
+            r = ref_expand(t, env_)
+            if r is None: continue
+            case = dict(kind='c02_single' if r[0] == 'text' else 'c02_spread', written=t, env=env_, pos=0, neighbours=0)
+            if r[0] == 'text': case['expected'] = r[1]
+            else: case['expected_words'] = r[1]
+            got = replayer(case); last = (t, got)
+            if got[0]:
+                v['native'] = case.get('native'); v['written'] = t; v['env'] = env_
+                return (True, 'template %r with %r: %s' % (t, env_, got[1]))
+        if last is None: return (None, 'no continuation inside the template grammar')
+        return (False, 'templates through this state behave as documented natively (last: %r)' % (last,))
     # public route: a scripted command that logs what it receives; the written argument sits in an instruction
     # built by the parser, so the replay writes it in quotes with the parser's escapes
     def q(s): return '"' + s.replace('\\', '\\\\').replace('"', '\\"').replace('\n', '\\n').replace('\r', '\\r').replace('\t', '\\t') + '"'
@@ -219,13 +245,149 @@ def main(tier, seed):
         for gi, g in enumerate(groups(pick3, 5)): chk.job(job_single, 'single:3seg/%d' % gi, shapes=g, name_cap=2, val_cap=4, nvars=2)
         chk.job(job_spread, 'spread', name_cap=2, val_cap=4, nvars=2)
         chk.job(job_token_inductive, 'parser keeps backslash-dollar-brace', N=24, C=12, part='C02')
+        chk.job(job_token_inductive, 're-split scanner lemmas', N=24, C=12, part='C02r')
+        chk.job(job_arglist_inductive, 're-split word-list lemma', K=3, control_as_char=True, pid='C02')
+        chk.job(job_expand_inductive, 'expansion lemmas', N=24, OC=24, KC=8, nvars=2, key_cap=7, val_cap=8)
         chk.bounds = dict(templates='all shapes of <= 2 segments (30) + 10 seeded shapes of 3 segments (at most one escaped segment); one solver run per shape', names='<= 2 chars', values='<= 4 chars', variables=2)
     else:
         for gi, g in enumerate(groups(shapes1 + shapes2 + shapes3, 14)): chk.job(job_single, 'single:1-3seg/%d' % gi, shapes=g, name_cap=2, val_cap=5, nvars=2)
-        chk.job(job_spread, 'spread', name_cap=2, val_cap=6, nvars=2)
+        chk.job(job_spread, 'spread', name_cap=2, val_cap=5, nvars=2)
         chk.job(job_token_inductive, 'parser keeps backslash-dollar-brace', N=64, C=32, part='C02')
-        chk.bounds = dict(templates='all 155 shapes of <= 3 segments; one solver run per shape', names='<= 2 chars', values='<= 5 chars (spread: 6)', variables=2)
+        chk.job(job_token_inductive, 're-split scanner lemmas', N=64, C=32, part='C02r')
+        chk.job(job_arglist_inductive, 're-split word-list lemma', K=6, control_as_char=True, pid='C02')
+        chk.job(job_expand_inductive, 'expansion lemmas', N=64, OC=64, KC=16, nvars=3, key_cap=15, val_cap=24)
+        chk.bounds = dict(templates='all 155 shapes of <= 3 segments; one solver run per shape', names='<= 2 chars', values='<= 5 chars; lemma jobs: values <= 24, names <= 15, templates <= 64', variables=2)
     chk.assumptions = ['std models for String/Vec/HashMap/Chars', 'spread (%{name}) values exclude " and # (README: "acts the same as writing the words on the line")',
                        'names: non-empty, no space/tab/CR/LF, =, }', 'the written argument is given in parsed form; that the parser keeps \\${ as these three characters is decided by the scanner lemmas CTL+$ and VAR+{ (DESIGN 8.6)']
     results = chk.run()
     return chk.finish(results, 'every obligation is a solver query over all templates/environments within the bounds')
+
+
+# ---------------------------------------------------------------------- inductive lemmas: templates, names and values of any length
+EV_SINGLE, EV_MULTI, EV_NONE = 0, 1, 2
+
+
+def job_expand_inductive(ctx, jr, N, OC, KC, nvars, key_cap, val_cap):
+    """One iteration of the character loop of expand_by_wrapper from an arbitrary loop-head state of each phase:
+    B boundary between segments (output OUT so far), D after '$' or '%', K inside {name (key K so far), F after a backslash."""
+    from mirsym import induct
+    from mirsym.models import str_push
+    jr.bounds = dict(template_chars=N, position='any', output_so_far_chars=OC, key_so_far_chars=KC, variables=nvars, variable_name_chars=key_cap, value_chars=val_cap,
+                     claim='per-iteration lemmas; composition over the segments of a template is the induction of DESIGN.md 8.6')
+    fname = 'expansion::expand_by_wrapper'
+    EVT = None
+    lem = 0
+    for phase in ('BASE', 'B', 'D', 'K', 'F', 'END'):
+        e = ctx.engine(unwind=3)
+        t0 = time.time()
+        env, keys, vals, present, econs = make_env(e, nvars, key_cap, val_cap); e.assume(econs)
+        tmpl = H.sym_str(e, 'template', N)
+        reparse_seen = []
+        rp_kind = e.fresh_int('reparse.kind', 0, 2)
+        rp_words = V(e.fresh_int('reparse.n', 1, 2), [H.sym_str(e, 'reparse.w%d' % i, 2) for i in range(2)])
+
+        def h_reparse(eng, st1, a, callee):
+            reparse_seen.append((st1.g, eng.deref(st1, a[1]) if isinstance(a[1], (P, PV)) else a[1], a[2]))
+            okv = E('std::option::Option', zite(rp_kind == 0, 1, 0), {0: [], 1: [rp_words]})
+            return E('std::result::Result', zite(rp_kind == 2, 1, 0), {0: [okv], 1: [E('types::error::ScriptError', 0, {0: [mk_str('f'), mk_str('m')]})]})
+        e.hooks['parser::reparse_arguments'] = h_reparse
+        st = State(True, {(0, 'meta'): meta_new(1), (0, 'vars'): env})
+        fr = induct.capture(e, 'core', fname, [tmpl, P(0, 'meta'), P(0, 'vars')], st)
+        it0 = fr.get(fr.st, 'iter')
+        obs = []
+        single = e.fresh_bool('single')
+        OUT = H.sym_str(e, 'OUT', OC); K = H.sym_str(e, 'K', KC)
+        p = e.fresh_int('p', 0, N); e.assume(p <= tmpl.len)
+        e.assume(zand(OUT.len <= OC - 2 - val_cap, K.len <= KC - 1))
+        c = sel(tmpl.ch, p, 0); atend = zeq(p, tmpl.len); inb = znot(atend)
+
+        def head(ph, single_, OUT_, K_, p_):
+            return fr.state(True, value_string=OUT_, prefix_index=1 if ph == 'D' else 0, found_prefix=ph == 'K', key=K_ if ph == 'K' else S(0, []),
+                            force_push=ph == 'F', single_type=single_, iter=T([tmpl, p_], it0.ty))
+
+        def is_head(st1, ph, single_, OUT_, K_, p_):
+            g = lambda n: fr.get(st1, n)
+            it = g('iter')
+            cs = [str_eq(g('value_string'), OUT_), zeq(g('prefix_index'), 1 if ph == 'D' else 0), zeq(g('found_prefix'), ph == 'K'), zeq(g('force_push'), ph == 'F'),
+                  zeq(g('single_type'), single_), zeq(it.f[1], p_)]
+            cs.append(str_eq(g('key'), K_) if ph == 'K' else zeq(g('key').len, 0))
+            return zand(*cs)
+        if phase == 'BASE':
+            obs.append((fr.st.g, is_head(fr.st, 'B', True, S(0, []), None, 0), 'entry establishes the boundary phase with empty output'))
+            back = None
+        else:
+            if phase == 'END':
+                st1 = head('B', single, OUT, None, p); e.assume(atend)
+            else:
+                st1 = head(phase, single, OUT, K, p); e.assume(inb)
+            exits, back = fr.step(st1)
+            goes_on = back.g if back is not None else False
+            exp = []     # (condition, phase', single', OUT', K')
+            if phase == 'B':
+                # single stays as it is on literal characters only when it is true (spread templates consist of %{name} alone)
+                e.assume(zimp(znot(single), False))
+                exp += [(zand(c != DOLLAR, c != PERCENT, c != BS), 'B', True, str_push(OUT, c), None),
+                        (zeq(c, DOLLAR), 'D', True, OUT, None), (zeq(c, BS), 'F', True, OUT, None),
+                        (zand(zeq(c, PERCENT), zeq(OUT.len, 0), zeq(p, 0)), 'D', False, OUT, None)]
+            elif phase == 'D':
+                exp += [(zeq(c, LBRACE), 'K', single, OUT, S(0, []))]
+            elif phase == 'K':
+                found, v = lookup(keys, vals, present, K)
+                brk = zor(zeq(c, SP), zeq(c, LF), zeq(c, TAB), zeq(c, CR), zeq(c, EQ))
+                exp += [(zand(c != RBRACE, znot(brk)), 'K', single, OUT, str_push(K, c)),
+                        (zeq(c, RBRACE), 'B', single, merge(found, str_concat(OUT, v), OUT), None)]
+            elif phase == 'F':
+                e.assume(single)
+                exp += [(zeq(c, DOLLAR), 'B', True, str_push(OUT, DOLLAR), None)]
+            for cnd, ph2, s2, O2, K2 in exp:
+                obs.append((cnd, goes_on, '%s: the scan continues' % phase))
+                if back is not None:
+                    obs.append((zand(back.g, cnd), is_head(back, ph2, s2, O2, K2, p + 1), '%s + char -> %s with the prescribed output and key' % (phase, ph2)))
+            if phase == 'END':
+                obs.append((True, znot(goes_on), 'the loop ends with the template'))
+                for rs, rv in fr.returns(exits):
+                    sv = rv.p[EV_SINGLE][0] if EV_SINGLE in rv.p else S(0, [])
+                    obs.append((zand(rs.g, single), zite(OUT.len > 0, zand(zeq(rv.d, EV_SINGLE), str_eq(sv, OUT)), zeq(rv.d, EV_NONE)),
+                                'a single-type template returns its output as one value (nothing when empty)'))
+                    obs.append((zand(rs.g, znot(single), zeq(OUT.len, 0)), zand(zeq(rv.d, EV_MULTI), zeq(rv.p[EV_MULTI][0].len, 0)) if EV_MULTI in rv.p else False,
+                                'a spread template with an empty value returns no values'))
+                    mv = rv.p[EV_MULTI][0] if EV_MULTI in rv.p else V(0, [])
+                    obs.append((zand(rs.g, znot(single), OUT.len > 0, rp_kind == 0), zand(zeq(rv.d, EV_MULTI), deep_eq(mv, rp_words)),
+                                'a spread template returns exactly the words of the re-split value'))
+                    obs.append((zand(rs.g, znot(single), OUT.len > 0, rp_kind == 1), zand(zeq(rv.d, EV_MULTI), zeq(mv.len, 0)), 'no words -> no values'))
+                # the re-split sees exactly the output
+                for g_, chars, start_ in reparse_seen:
+                    obs.append((g_, zand(zeq(start_, 0), str_eq(S(chars.len, chars.it), OUT)), 'the value handed to the re-split is exactly the output'))
+                obs.append((zand(znot(single), OUT.len > 0), zor(*[g_ for g_, _, _ in reparse_seen]) if reparse_seen else False, 'a non-empty spread value is re-split'))
+        for g, cnd, msg in obs: e.obligations.append(Obligation(g, cnd, 'C02 expansion lemma (%s): %s' % (phase, msg), 'assert', 'oracle'))
+        lem += len(obs)
+        jr.symex_time += time.time() - t0
+
+        def extract(m, o=None, phase=phase):
+            envd = {solve.model_str(m, k): solve.model_str(m, x) for k, x, pp in zip(keys, vals, present) if solve.model_bool(m, pp)}
+            return dict(kind='c02_lemma', phase=phase, template=solve.model_str(m, tmpl), p=solve.model_int(m, p), OUT=solve.model_str(m, OUT), K=solve.model_str(m, K),
+                        single=solve.model_bool(m, single), env=envd)
+        plain = zand(*[zimp(OUT.len > i, zand(OUT.ch[i] >= 97, OUT.ch[i] <= 122)) for i in range(OC)], *[zimp(K.len > i, zand(K.ch[i] >= 97, K.ch[i] <= 122)) for i in range(KC)])
+        res = discharge_known(e, jr, PID, {}, extract, prefer=plain)
+        if phase not in ('BASE', 'END'): witness(jr, e, 'expansion lemma %s: the iteration continues' % phase, back.g if back is not None else False, extract)
+        if phase == 'END': witness(jr, e, 'expansion lemma END: a spread value is re-split', zand(znot(single), OUT.len > 0, rp_kind == 0), extract)
+        H.finish_job(jr, e, res)
+    jr.samples.append({'lemmas': lem})
+
+
+def ref_expand(t, env):
+    """the documented binding of one written argument; None when t is outside the template grammar of the property
+    (literal text free of $ % backslash, ${name}, \\${name}, whole-argument %{name}) or in the open known-finding class"""
+    import re
+    name = r'[^ \t\r\n=}]+'
+    m = re.fullmatch(r'%\{(' + name + r')\}', t)
+    if m: return ('words', [w for w in env.get(m.group(1), '').split(' ') if w]) if not re.search('["#]', env.get(m.group(1), '')) else None
+    out = ''; i = 0
+    while i < len(t):
+        m = re.match(r'\$\{(' + name + r')\}', t[i:])
+        if m: out += env.get(m.group(1), ''); i += m.end(); continue
+        m = re.match(r'\\\$\{([^ \t\r\n=}$%\\]+)\}', t[i:])
+        if m: out += '${' + m.group(1) + '}'; i += m.end(); continue
+        if t[i] in '$%\\': return None
+        out += t[i]; i += 1
+    return ('text', out)
